@@ -18,7 +18,7 @@ assumed), every block and every fork depth. What a stored block must satisfy (`S
   without definition, declare+migrate in one block: refused by `Store`, model and code agree);
 * `Safe` — the situations in which the code AS FOUND really cannot undo a block that a valid chain
   can contain; each has a proved counterexample below (K1 legacy / K2 new backend: system contract
-  with empty storage; legacy: a class hash listed twice in `DeclaredV0Classes`; window closing block
+  with empty storage; window closing block
   before 702b167 — with `dropReopenedWindow` that clause is void).
 Theorems named `*_before_<commit>` are regression witnesses for defects already repaired in /repo.
 -/
@@ -30,8 +30,7 @@ Full-strength statement (what the property asks; NOT true of the code as found):
   theorem revert_store_id_full (g : Good cfg nd) (ok : BlockOK cfg nd b) (h : store cfg nd b = .ok nd') :
       revert cfg nd' = .ok nd
 It is refuted on the model (and on the real code, by the harness) by
-`revert_total_legacy_counterexample` (K1), `newstate_system_contract_height_counterexample` (K2) and
-`legacy_duplicate_declaration_counterexample`; `revert_store_id` below is its partial version: the
+`revert_total_legacy_counterexample` (K1) and `newstate_system_contract_height_counterexample` (K2); `revert_store_id` below is its partial version: the
 hypothesis `StoreOK = BlockOK ∧ Safe` excludes exactly these situations (see `Safe`).
 -/
 
@@ -115,7 +114,7 @@ the model keeps the switch, the witness shows what the repair changed. -/
 
 def legacyCfg : Cfg :=
   { legacy := true, zeroWriteFix := true, dropReopenedWindow := false, removeImplicitClasses := false,
-    legacyPurgeOnUpdate := false, legacyDedupDeclared := false, window := 4 }
+    legacyPurgeOnUpdate := false, legacyDedupDeclared := true, window := 4 }
 def newCfg : Cfg := { legacyCfg with legacy := false }
 
 def blk (n h p : Nat) (d : Diff) : Block :=
@@ -176,19 +175,20 @@ theorem implicit_class_survived_before_64c1acb :
       (fstoreAll legacyCfg Node.init [blk 0 10 0 Diff.empty]) = true := by
   decide
 
-/-- Legacy backend as found: a block whose `DeclaredV0Classes` lists a class hash twice is stored,
-and `RevertHead` then fails (`removeDeclaredClasses` looks the class up in its own transaction, where
-the first occurrence has just deleted it). The new backend, and the legacy backend with the proposed
-repair, undo the block exactly. -/
-theorem legacy_duplicate_declaration_counterexample :
-    failsWith (thenRevert legacyCfg (fstoreAll legacyCfg Node.init
+/-- Regression witness (repaired in /repo by 7460746): with the legacy backend as it was, a block whose
+`DeclaredV0Classes` lists a class hash twice is stored and `RevertHead` then fails
+(`removeDeclaredClasses` looked the class up in its own transaction, where the first occurrence had
+just deleted it). The new backend and the legacy backend as found now undo the block exactly; the
+general theorems cover such blocks (no hypothesis excludes duplicates any more). -/
+theorem legacy_duplicate_declaration_failed_before_7460746 :
+    failsWith (thenRevert { legacyCfg with legacyDedupDeclared := false } (fstoreAll legacyCfg Node.init
       [blk 0 10 0 Diff.empty,
        { blk 1 11 10 { Diff.empty with declV0 := [0xd7, 0xd7] } with classes := [(0xd7, ⟨false, 0⟩)] }])) .classMissing = true ∧
     sameNode (thenRevert newCfg (fstoreAll newCfg Node.init
       [blk 0 10 0 Diff.empty,
        { blk 1 11 10 { Diff.empty with declV0 := [0xd7, 0xd7] } with classes := [(0xd7, ⟨false, 0⟩)] }]))
       (fstoreAll newCfg Node.init [blk 0 10 0 Diff.empty]) = true ∧
-    sameNode (thenRevert { legacyCfg with legacyDedupDeclared := true } (fstoreAll legacyCfg Node.init
+    sameNode (thenRevert legacyCfg (fstoreAll legacyCfg Node.init
       [blk 0 10 0 Diff.empty,
        { blk 1 11 10 { Diff.empty with declV0 := [0xd7, 0xd7] } with classes := [(0xd7, ⟨false, 0⟩)] }]))
       (fstoreAll legacyCfg Node.init [blk 0 10 0 Diff.empty]) = true := by
@@ -260,7 +260,7 @@ theorem early_migration_needed :
 
 /-! ### Non-vacuity -/
 
-example : legacyCfg.asFound := ⟨by decide, fun _ => ⟨rfl, rfl⟩⟩
+example : legacyCfg.asFound := ⟨by decide, fun _ => ⟨rfl, rfl, rfl⟩⟩
 example : newCfg.asFound := ⟨by decide, fun h => by cases h⟩
 
 -- a block with a deployment, a storage write to the deployed contract and a nonce is stored, and
@@ -308,8 +308,7 @@ private theorem e0_storeOK (cfg : Cfg) (hw : cfg.window = 4) : StoreOK cfg Node.
   safe :=
     { noEmptySys := fun _ a _ h => by simp [Node.init, State.empty, Map.get] at h,
       noSysEmptied := fun _ a _ h => by simp [Node.init, State.empty, Map.get] at h,
-      noDupDeclared := fun _ => by decide,
-      window := Or.inr (by simp [e0, blk, Node.init, hw]) }
+            window := Or.inr (by simp [e0, blk, Node.init, hw]) }
 
 def n1 (cfg : Cfg) : Node := nodeOf (fstore cfg Node.init e0)
 
@@ -344,8 +343,7 @@ private theorem e1_storeOK_legacy : StoreOK legacyCfg (n1 legacyCfg) e1 where
         rcases sys_cases ha with rfl | rfl
         · decide
         · exact absurd hc (by decide),
-      noDupDeclared := fun _ => by decide,
-      window := Or.inr (by decide) }
+            window := Or.inr (by decide) }
 
 def n2_legacy : Node := nodeOf (fstore legacyCfg (n1 legacyCfg) e1)
 private theorem n2_stored_legacy : store legacyCfg (n1 legacyCfg) (withRoots legacyCfg (n1 legacyCfg) e1) = .ok n2_legacy :=
@@ -353,7 +351,7 @@ private theorem n2_stored_legacy : store legacyCfg (n1 legacyCfg) (withRoots leg
 
 /-- the instance of `revert_store_id` for this block (its hypotheses are all discharged) -/
 example : revert legacyCfg n2_legacy = .ok (n1 legacyCfg) :=
-  revert_store_id legacyCfg ⟨by decide, fun _ => ⟨rfl, rfl⟩⟩ (n1 legacyCfg) n2_legacy _ n1_good_legacy (storeOK_withRoots e1_storeOK_legacy) n2_stored_legacy
+  revert_store_id legacyCfg ⟨by decide, fun _ => ⟨rfl, rfl, rfl⟩⟩ (n1 legacyCfg) n2_legacy _ n1_good_legacy (storeOK_withRoots e1_storeOK_legacy) n2_stored_legacy
 -- and the node really changed: the migration, the replaced class and the L1 message are there
 example : (Map.get n2_legacy.casm 0xd1).map (·.migratedAt) = some 1 ∧ Map.get n2_legacy.l1msg 0x9a = some 0x78 ∧
     (Map.get n2_legacy.st.contracts 0x104).map (·.classHash) = some 0xd1 ∧ Map.get n2_legacy.st.storage (0x104, 1) = none := by
@@ -380,8 +378,7 @@ private theorem e1_storeOK_new : StoreOK newCfg (n1 newCfg) e1 where
         rcases sys_cases ha with rfl | rfl
         · decide
         · exact absurd hc (by decide),
-      noDupDeclared := fun _ => by decide,
-      window := Or.inr (by decide) }
+            window := Or.inr (by decide) }
 
 def n2_new : Node := nodeOf (fstore newCfg (n1 newCfg) e1)
 private theorem n2_stored_new : store newCfg (n1 newCfg) (withRoots newCfg (n1 newCfg) e1) = .ok n2_new :=
